@@ -585,9 +585,18 @@ fn bounds_case(case_seed: u64, c: &mut Collector) {
         let k = rng.range(0, 4);
         let mut fs: Vec<String> = (0..k).map(|j| field(&mut rng, Some(names[j]), false, &mut expected, &mut forms)).collect();
         if tr != Tr::Meta && rng.coin() {
-            // a magic field never takes part in the bound, whatever its type says
-            forms.insert("magic-field");
-            fs.push(format!("ident: Wrapper<{}>", declared.iter().next().cloned().unwrap_or_else(|| "u8".into())));
+            // a magic field never takes part in the bound, whatever its type says; for FromAttributes
+            // (no element parts to pass on) `ident` is an ordinary, parsed field
+            let p = declared.iter().next().cloned();
+            if tr == Tr::Attributes {
+                forms.insert("ident-as-ordinary-field");
+                if let Some(p) = &p {
+                    expected.insert(p.clone());
+                }
+            } else {
+                forms.insert("magic-field");
+            }
+            fs.push(format!("ident: Wrapper<{}>", p.unwrap_or_else(|| "u8".into())));
         }
         format!("{cattr}struct Recv{gtext}{where_clause} {{ {} }}", fs.join(", "))
     };
